@@ -85,7 +85,8 @@ def filters_out_final(b, fc, final_ids):
         caps = common.closure_captures(b, cb)
         negated = any(st["s"] == "assign" and st["pl"]["l"] == 0 and st["rv"]["r"] == "un" and st["rv"]["op"] == "Not" for i_, j_, st in cb.statements())
         cont = [c for c in cb.calls() if c.f and c.f["path"] == SIG + "::contains"]
-        cap_ok = any(loc is not None and ("local", loc) in final_ids for n_, (loc, aps, _) in caps.items())
+        # (the captured set may be a reference parameter of an inlined helper: identify it by storage)
+        cap_ok = any(loc is not None and (("local", loc) in final_ids or set_id(b, {"l": loc, "p": [], "t": b.local_ty(loc)}) in final_ids) for n_, (loc, aps, _) in caps.items())
         if negated and cont and cap_ok:
             return True
     return False
@@ -145,6 +146,31 @@ def run(ck):
             if rid == ("self.mask",):
                 ck.violation("2", "T14-set-provenance", b, "unblock-disjoint-from-final-mask", "%s unblocks self.mask as a whole: signals that stay configured are unblocked for a moment, so a pending instance is delivered with its default disposition (the process is killed) instead of to the source" % q, site=b.where(u.bb))
                 continue
+            # the other way round: the *final mask* is what is left of the old one after filtering out the unblocked set
+            # (`self.mask = old.iter().filter(|s| !removed.contains(s)).collect()`): disjoint by construction
+            if rid[0] == "local":
+                dis = False
+                for i_, j_, st_ in T.stores_to_field(b, "mask"):
+                    if b.is_cleanup(i_) or st_["rv"]["r"] != "use":
+                        continue
+                    work, seen_ = [], set()
+                    for r_, p_ in b.resolve(st_["rv"]["o"]):
+                        if r_[0] == "call":
+                            work.append(b.call_at(r_[1]))
+                    while work:
+                        x = work.pop()
+                        if x is None or x.bb in seen_:
+                            continue
+                        seen_.add(x.bb)
+                        if x.name == "filter" and filters_out_final(b, x, {rid}):
+                            dis = True
+                        for a_ in x.args[:1]:
+                            for r_, p_ in b.resolve(a_):
+                                if r_[0] == "call":
+                                    work.append(b.call_at(r_[1]))
+                if dis:
+                    ck.ok("2", "T14-set-provenance", b, "unblock-disjoint-from-final-mask", "the final mask is the old one filtered by !unblocked.contains(s): no signal of the final mask is in the unblocked set", site=b.where(u.bb))
+                    continue
             adds = [a for a in sigcalls(b, "add") if set_id(b, a.args[0]) == rid]
             if rid[0] == "local" and not adds:
                 # the set is collected from an iterator: `old.iter().filter(|s| !final.contains(s)).collect()`
